@@ -122,6 +122,25 @@ theorem rt_share_msg (l : List (Option (Bool × Nat))) (hl : l.length < 2 ^ 64)
   simp only [hng, if_false]
   exact decN_enc_on hel l (fun o ho b m h => hm b m (h ▸ ho)) r
 
+/-- a codec that round-trips is prefix-free and injective: two values never share an encoding, and the bytes that follow an
+    encoded value are determined too — the framing cannot be re-split by a peer into a different (value, rest) pair. -/
+theorem rt_injective {α} {e : α → Bytes} {d : Dec α} (h : RT e d) (a b : α) (r r' : Bytes)
+    (he : e a ++ r = e b ++ r') : a = b ∧ r = r' := by
+  have h1 := h a r
+  rw [he, h b r'] at h1
+  injection h1 with h1
+  injection h1 with h2 h3
+  exact ⟨h2.symm, h3.symm⟩
+
+theorem encVec_injective {α} {e : α → Bytes} {d : Dec α} (h : RT e d) (h1 : ∀ a, 1 ≤ (e a).length)
+    (l l' : List α) (hl : l.length < 2 ^ 64) (hl' : l'.length < 2 ^ 64) (he : encVec e l = encVec e l') : l = l' := by
+  have a := rt_vec h h1 l hl []
+  have b := rt_vec h h1 l' hl' []
+  rw [he, b] at a
+  injection a with a
+  injection a with a _
+  exact a.symm
+
 /-- non-vacuity: the share message type `Vec<Option<bool>>` with a trailing byte. -/
 example : decVec (decOpt decBool) (encVec (encOpt encBool) [some true, none, some false] ++ [7])
     = .ok ([some true, none, some false], [7]) :=
